@@ -181,7 +181,7 @@ def worker_cases(scene):
     return out
 
 
-def run_worker(cases, tag="impl", timeout=1500):
+def run_worker(cases, tag="impl", timeout=900):
     nwk = min(cm.NCPU, max(1, len(cases) // 6))
     chunks = [cases[i::nwk] for i in range(nwk)]
     res = cm.run_impl_parallel(PID, "c12", [dict(cases=c) for c in chunks], timeout=timeout, tag=tag)
@@ -192,13 +192,22 @@ def run_worker(cases, tag="impl", timeout=1500):
             for i, x in zip(idxs, rr["result"]["results"]):
                 out[i] = x
         else:
-            singles = cm.run_impl_parallel(PID, "c12", [dict(cases=[c]) for c in ch], timeout=240, tag=tag + "_iso")
+            # a worker died (watchdog on a hung compiled loop, crash): one process per case and per op
+            singles = cm.run_impl_parallel(PID, "c12", [dict(cases=[c]) for c in ch], timeout=300, tag=tag + f"_iso{w}_")
             for i, sgl, c in zip(idxs, singles, ch):
                 if sgl["status"] == "ok":
                     out[i] = sgl["result"]["results"][0]
                 else:
-                    out[i] = [dict(fn=o["fn"], exc=f"PROCESS-{sgl['status'].upper()}",
-                                   exc_msg=f"rc={sgl.get('rc')} {sgl.get('log', '')[-200:]}") for o in c["ops"]]
+                    per_op = cm.run_impl_parallel(PID, "c12", [dict(cases=[dict(c, ops=[o])]) for o in c["ops"]], timeout=120,
+                                                  tag=tag + f"_op{w}_")
+                    out[i] = []
+                    for o, po in zip(c["ops"], per_op):
+                        if po["status"] == "ok":
+                            out[i].append(po["result"]["results"][0][0])
+                        else:
+                            hung = po["status"] == "timeout" or po.get("rc") == 3
+                            out[i].append(dict(fn=o["fn"], exc="PROCESS-HANG" if hung else "PROCESS-CRASH",
+                                               exc_msg=f"rc={po.get('rc')} {po.get('log', '')[-200:]}"))
     return out
 
 
